@@ -142,7 +142,11 @@ func scenario(c conf, bound int) schk.Scenario {
 		Body: func(s *vrt.Sched) any {
 			r := &rec{c: c, ps: &chans.PubSub[int]{}}
 			if c.timeout {
+				// any positive duration is a limit: a nanosecond for odd subscriber counts, a second otherwise
 				r.ps.PubTimeoutAfter = time.Second
+				if len(c.bufs)%2 == 1 {
+					r.ps.PubTimeoutAfter = time.Duration(1)
+				}
 				r.ps.OnPubTimeout = r.onTimeout
 			}
 			for j, b := range c.bufs {
